@@ -61,7 +61,7 @@ class Sim {
   std::vector<uint8_t> nvm;
   long nvm_fault_at = -1;        // k-th NVM call (1-based, counted over reads+writes) returns a short count
   long nvm_calls = 0;
-  uint32_t nvm_short = 0;        // how many bytes the faulty call transfers
+  uint32_t nvm_short = 0;        // how many bytes the faulty call transfers (FFFFFFFFh: size-1, FFFFFFFEh: size/2; always < size)
   bool can_enabled = false; int can_resets = 0; int can_closes = 0;
   // ---- persistent LSS store
   bool lss_have = false; uint32_t lss_baud = 0; uint8_t lss_node = 0; CO_ERR lss_store_result = CO_ERR_NONE; CO_ERR lss_load_result = CO_ERR_NONE;
